@@ -18,6 +18,8 @@ def children(e):
     if k == 'app': return [e[1]] + list(e[2])
     if k in ('pipe', 'seq'): return [e[1], e[2]]
     if k == 'asg': return [e[2]]
+    if k == 'con': return [] if e[3] is None else [e[3]]
+    if k == 'match': return [e[1]] + [b for _, b in e[2]]
     return []
 
 
@@ -36,6 +38,8 @@ def rebuild(e, ch):
     if k == 'app': return ('app', ch[0], list(ch[1:]))
     if k in ('pipe', 'seq'): return (k, ch[0], ch[1])
     if k == 'asg': return ('asg', e[1], ch[0])
+    if k == 'con': return e if e[3] is None else ('con', e[1], e[2], ch[0])
+    if k == 'match': return ('match', ch[0], [(m, c) for (m, _), c in zip(e[2], ch[1:])])
     return e
 
 
@@ -81,7 +85,13 @@ def local_shrinks(e, typed=False):
         out.append(e[1])
     elif k == 'delay':
         out += [e[2]]
-    elif k in ('lam', 'tup', 'rec', 'proj', 'fld', 'cnamed'):
+    elif k == 'match':
+        # an arm without binders in place of the whole match; fewer arms (the last arm stays: it is usually the `_` arm)
+        out += [b for m, b in e[2] if not mpat_vars(m)]
+        if e[2] and e[2][-1][0] == ('mw',):
+            for i in range(len(e[2]) - 1):
+                out.append(('match', e[1], e[2][:i] + e[2][i + 1:]))
+    elif k in ('lam', 'tup', 'rec', 'proj', 'fld', 'cnamed', 'con', 'selfs'):
         pass
     return out
 
